@@ -1050,20 +1050,44 @@ PBT_PROPERTY(e2e)
   }
   unsigned finDelayUs = static_cast<unsigned>(src.range(0, 300));
 
-  // ---- raw peer
-  int lfd = ::socket(AF_INET, SOCK_STREAM | SOCK_CLOEXEC, 0);
-  sockaddr_in a{};
-  a.sin_family = AF_INET;
-  a.sin_addr.s_addr = htonl(INADDR_LOOPBACK);
-  if (lfd < 0 || ::bind(lfd, reinterpret_cast<sockaddr *>(&a), sizeof a) != 0 || ::listen(lfd, 4) != 0)
+  // ---- raw peer. The listening socket lives for the whole process (binding a fresh port per case
+  // would exhaust the ephemeral range through TIME_WAIT in long runs); its accept queue is drained
+  // at the start of every case, nothing else is shared between cases.
+  struct Listener
   {
-    if (lfd >= 0) ::close(lfd);
+    int fd = -1;
+    std::uint16_t port = 0;
+    Listener()
+    {
+      fd = ::socket(AF_INET, SOCK_STREAM | SOCK_CLOEXEC | SOCK_NONBLOCK, 0);
+      sockaddr_in a{};
+      a.sin_family = AF_INET;
+      a.sin_addr.s_addr = htonl(INADDR_LOOPBACK);
+      socklen_t al = sizeof a;
+      if (fd < 0 || ::bind(fd, reinterpret_cast<sockaddr *>(&a), sizeof a) != 0 || ::listen(fd, 16) != 0 ||
+          ::getsockname(fd, reinterpret_cast<sockaddr *>(&a), &al) != 0)
+      {
+        if (fd >= 0) ::close(fd);
+        fd = -1;
+        return;
+      }
+      port = ntohs(a.sin_port);
+    }
+  };
+  static Listener listener;
+  if (listener.fd < 0)
+  {
     c.inconclusive("raw listener setup failed");
     return;
   }
-  socklen_t al = sizeof a;
-  ::getsockname(lfd, reinterpret_cast<sockaddr *>(&a), &al);
-  std::uint16_t port = ntohs(a.sin_port);
+  const int lfd = listener.fd;
+  const std::uint16_t port = listener.port;
+  for (;;)
+  {
+    int stale = ::accept4(lfd, nullptr, nullptr, SOCK_CLOEXEC);
+    if (stale < 0) break;
+    ::close(stale);
+  }
   std::atomic<bool> peerFailed{false};
   std::atomic<std::uint64_t> finSentNs{0};
   auto nowNs = [] {
@@ -1131,7 +1155,6 @@ PBT_PROPERTY(e2e)
   if (!tr->start().isOk())
   {
     peer.join();
-    ::close(lfd);
     c.inconclusive("transport did not start");
     return;
   }
@@ -1140,7 +1163,6 @@ PBT_PROPERTY(e2e)
   {
     tr->stop();
     peer.join();
-    ::close(lfd);
     c.inconclusive("connect to the raw peer failed");
     return;
   }
@@ -1207,7 +1229,6 @@ PBT_PROPERTY(e2e)
   }
   peer.join();
   tr->stop();
-  ::close(lfd);
   c.describe(pbt::Fmt() << "e2e chunks=" << sendPlan.size() << " bytes=" << stream.size() << " ioReadChunk=" << readChunk
                         << " finDelay=" << finDelayUs << "us switchModes=" << switchModes << " appOps=" << appOps.size()
                         << " => handed " << handed.size() << " (callback " << viaCb << ")" << (eof ? " eof" : ""));
